@@ -39,10 +39,23 @@ func ipHexOf(text string) string {
 	return hex.EncodeToString(ip.To16())
 }
 
-// spellingsOf: address strings that all denote the IPv4 address ip.
+// spellingsOf: six address strings that all denote the IP address ip (IPv4
+// dotted, or IPv6 in its canonical text form, zone-less).
 func spellingsOf(ip string) []string {
+	p := net.ParseIP(ip)
+	if p.To4() != nil {
+		return []string{
+			ip + ":18444", ip + ":18445", ip, "[::ffff:" + ip + "]:18444", "::ffff:" + ip, "[::ffff:" + ip + "]:9",
+		}
+	}
+	g := make([]any, 8)
+	for i := range g {
+		g[i] = int(p[2*i])<<8 | int(p[2*i+1])
+	}
+	loose := fmt.Sprintf("%x:%x:%x:%x:%x:%x:%x:%x", g...)
+	full := fmt.Sprintf("%04X:%04X:%04X:%04X:%04X:%04X:%04X:%04X", g...)
 	return []string{
-		ip + ":18444", ip + ":18445", ip, "[::ffff:" + ip + "]:18444", "::ffff:" + ip, "[::ffff:" + ip + "]:9",
+		"[" + ip + "]:18444", "[" + ip + "]:18445", ip, "[" + loose + "]:18444", full, "[" + full + "]:9",
 	}
 }
 
@@ -113,13 +126,15 @@ func startC13s(t *tr.W, rng *rand.Rand, name string, addrs []string) (*Sim, bool
 	t.Case("c13s %s len %d npeers %d", name, l, len(peers))
 	s, err := New(sc, rng, t.Op)
 	if err != nil {
-		t.Op("setup", "err "+err.Error())
+		t.Line("# setup error: %s", sanitize(err.Error()))
+		t.Op("setup", "err")
 		return nil, false
 	}
 	peerLines(t, s)
 	csOps{t, s}.peerIPs()
 	if err := s.Start(); err != nil {
-		t.Op("start", "err "+err.Error())
+		t.Line("# start error: %s", sanitize(err.Error()))
+		t.Op("start", "err")
 		s.Cleanup()
 		return nil, false
 	}
@@ -133,7 +148,8 @@ func driveC13Spellings(t *tr.W, rng *rand.Rand) {
 	if s, ok := startC13s(t, rng, "orders", []string{"10.0.0.5:18444"}); ok {
 		c := csOps{t, s}
 		for j := 0; j < 6; j++ {
-			ip := fmt.Sprintf("10.0.8.%d", 1+j)
+			// IPv4, IPv6 global, IPv6 link-local (zone-less); ...:3 and ...:6 share a /64 with nothing banned
+			ip := []string{"10.0.8.1", "2001:db8::8:2", "10.0.8.3", "fe80::8:4", "10.0.8.5", "2001:db8:0:0:1::6"}[j]
 			sp := spellingsOf(ip)
 			all := func() {
 				for _, x := range sp {
@@ -151,9 +167,10 @@ func driveC13Spellings(t *tr.W, rng *rand.Rand) {
 			all()
 		}
 		// random interleaving over two addresses
-		ips := []string{"10.0.9.1", "10.0.9.2"}
-		for i := 0; i < 80; i++ {
-			sp := spellingsOf(ips[rng.Intn(2)])
+		// two of them are neighbours in one /64: a ban of one is not a ban of the other
+		ips := []string{"10.0.9.1", "2001:db8::9:2", "2001:db8::9:3", "fe80::9"}
+		for i := 0; i < 120; i++ {
+			sp := spellingsOf(ips[rng.Intn(len(ips))])
 			x := sp[rng.Intn(len(sp))]
 			switch p := rng.Intn(10); {
 			case p < 6:
@@ -175,8 +192,17 @@ func driveC13Spellings(t *tr.W, rng *rand.Rand) {
 	// ---- 2. the connection path: each connected (persistent) peer's IP is banned under ANOTHER spelling; the
 	// peer is dropped, the connection manager dials it again after ConnectionRetryInterval and
 	// outboundPeerConnected must turn it away
-	addrs := []string{"10.0.0.5:18444", "10.0.0.6:18444", "10.0.0.7:18444", "10.0.0.8:18444"}
-	other := []string{"10.0.0.5:18445", "[::ffff:10.0.0.6]:18444", "10.0.0.7", ""} // peer 3 is not banned
+	addrs := []string{"10.0.0.5:18444", "10.0.0.6:18444", "10.0.0.7:18444", "10.0.0.8:18444",
+		"[2001:db8::7]:18444", "[2001:db8::8]:18444", "[fe80::7]:18444"}
+	// peers 3 and 5 are not banned (5 is a /64 neighbour of the banned 4)
+	other := []string{"10.0.0.5:18445", "[::ffff:10.0.0.6]:18444", "10.0.0.7", "",
+		"[2001:db8:0:0:0:0:0:7]:18445", "", "fe80::7"}
+	nBanned := 0
+	for _, o := range other {
+		if o != "" {
+			nBanned++
+		}
+	}
 	if s, ok := startC13s(t, rng, "reconnect", addrs); ok {
 		c := csOps{t, s}
 		before := make([]int32, len(s.Peers))
@@ -190,7 +216,7 @@ func driveC13Spellings(t *tr.W, rng *rand.Rand) {
 			}
 		}
 		// the banned peers are dropped ...
-		s.waitFor(1500*time.Millisecond, func(o Obs) bool { return len(o.Conn) == 1 })
+		s.waitFor(1500*time.Millisecond, func(o Obs) bool { return len(o.Conn) == len(s.Peers)-nBanned })
 		// ... and dialled again (ConnectionRetryInterval = 2 s in the simulation)
 		dl := time.Now().Add(4 * time.Second)
 		for time.Now().Before(dl) {
@@ -200,7 +226,7 @@ func driveC13Spellings(t *tr.W, rng *rand.Rand) {
 					n++
 				}
 			}
-			if n == 3 {
+			if n == nBanned {
 				break
 			}
 			time.Sleep(20 * time.Millisecond)
